@@ -19,7 +19,7 @@ import (
 var profile = gen.Profile{
 	MinSteps: 3, MaxSteps: 24, Limits: []int{32, 32, 3, 2, 1}, // mostly far above the load; small limits so that a slot that is not given back starves later calls
 	PNote: 25, PGate: 70, PInvalid: 14, PUnknown: 10, PBatch: 45, MaxBatch: 5, PTopInvalid: 4,
-	PBurst: 35, Builtins: true, Pins: true,
+	PBurst: 35, Builtins: true, Pins: true, PLongWait: 2,
 	AllowPush: true, PPush: 5, // half of the servers push-enabled: callbacks from outside and the peer's replies to them
 	Outcomes:      []string{"ok", "ok", "err:-32000", "err:7", "bad", "baderr", "badraw", "emptyraw", "err:-32600", "err:-32700"},
 	Chans:         []string{"direct", "pipe", "fragile"},
